@@ -135,7 +135,7 @@ package lexer
 //@   ensures  nonnil:: result != nil
 //@   ensures  monotone:: old(l.pos) <= l.pos
 //@   ensures  progress:: implies(!isEndTok(result), old(l.pos) < l.pos)
-//@   ensures  sticky:: implies(isEndTok(result), l.pos >= len(l.input) || l.input[l.pos] == 0)
+//@   ensures  @C16 sticky:: implies(isEndTok(result), l.pos >= len(l.input) || l.input[l.pos] == 0)
 //@   witness s = l.pos after skipWhitespace#1
 //@   ensures  ws:: tokstart(l, old(l.pos), s) && s < l.pos
 //@   ensures  kinds:: implies(!isEndTok(result), s < len(l.input) && l.pos <= len(l.input) && (litTok(result) || result.tokenType == token.STRING || result.tokenType == token.LINECOMMENT || result.tokenType == token.ILLEGAL))
